@@ -35,8 +35,9 @@ def enumerate_states(tier):
                 continue   # generic methods are not dyn-compatible
             if mode == "static_target" and ret == "generic":
                 continue   # type parameters of impl-block fns are lifted to the delegation-target trait: generic methods are unsupported there
-            states.append(dict(key="s_%s_%s_%s_%s_%s" % (mode, ret, "ms" if ms else "send", fl[:2], body), mode=mode, ret=ret,
-                               maybe_send=ms, flavour=fl, body=body))
+            for mixed in ((False, True) if mode not in ("fn",) else (False,)):
+                states.append(dict(key="s_%s_%s_%s_%s_%s%s" % (mode, ret, "ms" if ms else "send", fl[:2], body, "_mix" if mixed else ""), mode=mode, ret=ret,
+                                   maybe_send=ms, flavour=fl, body=body, mixed=mixed))
     return states, len(states) * 2, dict(modes=MODES, returns=list(RETS))
 
 
@@ -62,6 +63,11 @@ def render(s):
          "    pub struct App { pub num: i64 }",
          "    impl Dep for ::entrait::Impl<App> { fn num(&self) -> &i64 { &self.num } }"]
     call_args = r["args"]
+    # a synchronous companion method, declared first: per-method vs per-trait decisions must agree
+    mixed = s.get("mixed")
+    MIXD = "fn sync_first(&self, k: u8) -> u8; " if mixed else ""
+    MIXI = "fn sync_first(&self, k: u8) -> u8 { k } " if mixed else ""
+    MIXB = "pub fn sync_first(deps: &impl Dep, k: u8) -> u8 { k } " if mixed else ""
     if mode == "fn":
         L.append("    #[::entrait::entrait(pub Tr%s)]" % opt)
         L.append("    %s %s" % (fn_sig("m", r, "deps: &impl Dep"), body_of(s, r["val"])))
@@ -69,23 +75,23 @@ def render(s):
         L.append("    #[::entrait::entrait(pub Tr%s)]" % opt)
         L.append("    pub mod inner { use super::*;")
         L.append("        %s %s" % (fn_sig("m", r, "deps: &impl Dep"), body_of(s, r["val"])))
-        L.append("        pub async fn other(deps: &impl Dep) -> u8 { 1 }")
+        L.append("        pub %sfn other(deps: &impl Dep) -> u8 { 1 }" % ("" if s.get("mixed") else "async "))
         L.append("    }")
     elif mode == "trait_self":
         L.append("    #[::entrait::entrait(%s)]" % opt.strip(", "))
         if at:
             L.append("    " + atattr)
-        L.append("    pub trait Tr { %s; }" % fn_sig("m", r, "&self", vis=""))
+        L.append("    pub trait Tr { %s%s; }" % (MIXD, fn_sig("m", r, "&self", vis="")))
         if at:
             L.append("    " + atattr)
-        L.append("    impl Tr for App { %s %s }" % (fn_sig("m", r, "&self", vis=""), body_of(s, r["tval"])))
+        L.append("    impl Tr for App { %s%s %s }" % (MIXI, fn_sig("m", r, "&self", vis=""), body_of(s, r["tval"])))
     elif mode == "trait_ref":
         L.append("    #[::entrait::entrait(delegate_by = ref%s)]" % opt)
         L.append("    " + atattr)
-        L.append("    pub trait Tr: ::core::marker::Sync + 'static { %s; }" % fn_sig("m", r, "&self", vis=""))
+        L.append("    pub trait Tr: ::core::marker::Sync + 'static { %s%s; }" % (MIXD, fn_sig("m", r, "&self", vis="")))
         L.append("    pub struct P { pub num: i64 }")
         L.append("    " + atattr)
-        L.append("    impl Tr for P { %s %s }" % (fn_sig("m", r, "&self", vis=""), body_of(s, r["tval"])))
+        L.append("    impl Tr for P { %s%s %s }" % (MIXI, fn_sig("m", r, "&self", vis=""), body_of(s, r["tval"])))
         L.append("    pub struct RApp { pub p: P }")
         L.append("    impl ::core::convert::AsRef<dyn Tr> for RApp { fn as_ref(&self) -> &(dyn Tr + 'static) { &self.p } }")
     else:
@@ -93,12 +99,12 @@ def render(s):
         L.append("    #[::entrait::entrait(TrImpl, delegate_by = %s%s)]" % ("ref" if dyn else "DelegateTr", opt))
         if at:
             L.append("    " + atattr)
-        L.append("    pub trait Tr { %s; }" % fn_sig("m", r, "&self", vis=""))
+        L.append("    pub trait Tr { %s%s; }" % (MIXD, fn_sig("m", r, "&self", vis="")))
         L.append("    pub struct X;")
         L.append("    #[::entrait::entrait%s]" % ("(ref)" if dyn else ""))
         if at:
             L.append("    " + atattr)
-        L.append("    impl TrImpl for X { %s %s }" % (fn_sig("m", r, "deps: &impl Dep"), body_of(s, r["val"])))
+        L.append("    impl TrImpl for X { %s%s %s }" % (MIXB, fn_sig("m", r, "deps: &impl Dep"), body_of(s, r["val"])))
         if dyn:
             L.append("    impl ::core::convert::AsRef<dyn TrImpl<Self> + ::core::marker::Sync> for App { fn as_ref(&self) -> &(dyn TrImpl<Self> + ::core::marker::Sync + 'static) { &X } }")
         else:
@@ -111,6 +117,8 @@ def render(s):
     L.append("        let app = %s;" % app)
     L.append("        { let fut = <_ as %s>::m(&app%s); super::output_is::<%s, _>(&fut); }" % (TR, ", " + call_args if call_args else "", r["out"]))
     L.append('        rt::out("send", declared_send(&app));')
+    if mixed and mode != "mod":
+        L.append('        rt::out("sync", Tr::sync_first(&app, 9));')
     L.append('        rt::out("val", format!("{:?}", rt::block_on(<_ as TRX>::m(&app%s))).replace(\'"\', ""));' % (", " + call_args if call_args else ""))
     L[-1] = L[-1].replace("TRX", TR)
     L += ["    }", "}"]
@@ -194,6 +202,8 @@ def evaluate(states, report, tier):
             if obs["send"] != m["send"]:
                 problems.append(("declared-send-%s" % ("missing" if m["send"] else "present-under-?Send"),
                                  "in `fn p<D: Tr>(d: &D)` the future returned by d.m() is Send: %s, model says %s" % (obs["send"], m["send"])))
+            if s.get("mixed") and s["mode"] != "mod" and res.first("sync") != "9":
+                problems.append(("sync-companion", "sync_first(9) = %r" % res.first("sync")))
             if obs["val"] != m["val"]:
                 problems.append(("result", "%r, model says %r" % (obs["val"], m["val"])))
         report.observe(s["key"], m, obs if not problems else dict(obs, problems=sorted(set(p[0] for p in problems))), nontrivial=True,
@@ -203,7 +213,7 @@ def evaluate(states, report, tier):
             if sig in done:
                 continue
             done.add(sig)
-            tags = {"mode:" + s["mode"], "ret:" + s["ret"], "maybe_send" if s["maybe_send"] else "send", "flavour:" + s["flavour"], "body:" + s["body"]}
+            tags = {"mode:" + s["mode"], "ret:" + s["ret"], "maybe_send" if s["maybe_send"] else "send", "flavour:" + s["flavour"], "body:" + s["body"], "mixed" if s.get("mixed") else "all-async"}
             report.violation(s["key"], tags, sig, detail, state=s, source=engine.standalone_source(u), meta=dict(mode="run"))
 
 
